@@ -36,6 +36,9 @@ type ipWorld struct {
 	// wire log
 	sent      map[uint64]*simnet.Datagram // every datagram by id
 	delivered map[uint64]*simnet.Datagram
+
+	// panicSfx classifies a panic of goroutine tag at site (known-finding preconditions)
+	panicSfx func(tag, site string) string
 }
 
 const (
@@ -73,7 +76,11 @@ func (w *ipWorld) goSafe(tag string, f func()) {
 		defer func() {
 			if p := recover(); p != nil {
 				st := string(debug.Stack())
-				w.r.Fail("panic", simcore.SiteFromStack(st)+":"+simcore.PanicClass(p), "goroutine %s: %v\n%s", tag, p, st)
+				site := simcore.SiteFromStack(st) + ":" + simcore.PanicClass(p)
+				if w.panicSfx != nil {
+					site += w.panicSfx(tag, site)
+				}
+				w.r.Fail("panic", site, "goroutine %s: %v\n%s", tag, p, st)
 			}
 		}()
 		f()
